@@ -1,6 +1,7 @@
 import DmrVerif.Lemmas.CrcPoly
 import DmrVerif.Lemmas.CrcFront
 import DmrVerif.Lemmas.CrcStream
+import DmrVerif.Lemmas.CrcOnto
 import DmrVerif.Props.C05a
 
 /-!
@@ -320,6 +321,37 @@ theorem crc9_check_iff (data : Bytes) (serial : Int) (mask : Nat) (c32 : Crc32Ar
     exact Int.ofNat_inj
   · intro hv; unfold crc9Check crc9CheckWith; rw [if_pos (by omega)]
 
+/-! ## every check-sum value occurs (the structured inputs: a chosen remainder / a chosen result) -/
+
+/-- for every prefix and every `w`-bit value `t` — all-zero, all-ones, a single bit … — exactly one
+`w`-bit tail makes the check sum of prefix ‖ tail equal to `t`: one message in `2^w`, which a random
+search does not find but which exists for every prefix -/
+theorem every_value_occurs (c : CrcConfig) (h : c ∈ configs) (pre t : Bits) (ht : t.length = c.w) :
+    ∃ tail : Bits, (tail.length = c.w ∧ calcBitwise c (pre ++ tail) = t)
+      ∧ ∀ tail' : Bits, tail'.length = c.w → calcBitwise c (pre ++ tail') = t → tail' = tail :=
+  calcBitwise_tail_exists_unique c (ok h) pre t ht
+
+/-- **CRC-CCITT front end**: for every data prefix, every 16-bit mask and every 16-bit value `v` (`0`,
+`0xFFFF`, the mask itself … included) two more octets make `CRC16.calculate` return `v` — and
+`CRC16.check` accepts `v` for them, also when `v = 0` -/
+theorem crc16_every_value (data : Bytes) (mask v : Nat) (hm : mask < 65536) (hv : v < 65536) :
+    ∃ x y : Nat, x < 256 ∧ y < 256 ∧ Crc.crc16 (data ++ [x, y]) mask = .ok v
+      ∧ crc16Check (data ++ [x, y]) v mask = .ok true := by
+  have hw : Gen.crc16.w = 16 := by decide
+  have hlt : v ^^^ mask < 2 ^ 16 := Nat.xor_lt_two_pow (by omega) (by omega)
+  obtain ⟨tail, ⟨hl, ht⟩, _⟩ := every_value_occurs Gen.crc16 (by simp [configs]) (bytesToBits data)
+    (inv (natToBits 16 (v ^^^ mask))) (by rw [inv_length, natToBits_length, hw])
+  obtain ⟨x, y, hx, hy, hxy⟩ := bits16_as_bytes tail (by rw [hl, hw])
+  have hcalc : Crc.crc16 (data ++ [x, y]) mask = .ok v := by
+    rw [crc16_front, bytesToBits_append, hxy]
+    show Except.ok (Nat.xor (bitsToNat (inv (calcBitwise Gen.crc16 (bytesToBits data ++ tail)))) mask) = _
+    rw [ht, inv_inv, bitsToNat_natToBits _ _ hlt]
+    show Except.ok ((v ^^^ mask) ^^^ mask) = _
+    rw [Nat.xor_assoc, Nat.xor_self, Nat.xor_zero]
+  refine ⟨x, y, hx, hy, hcalc, ?_⟩
+  obtain ⟨b, hb, hiff⟩ := (check_iff (data ++ [x, y]) [] mask v).2.1 (by omega)
+  rw [hb, hiff.2 hcalc]
+
 /-! ## detection -/
 
 /-- the generators have constant term 1 -/
@@ -445,5 +477,10 @@ example : regRun (regKind Gen.crc9 true) (regNew (regKind Gen.crc9 true))
         [true, false, false, true, true, false, false, false, true]], none) := by decide +kernel
 example : streamBitwise Gen.crc16 [bytesToBits [0x12, 0x34], zeros 16, [false]]
     = calcBitwise Gen.crc16 (bytesToBits [0x12, 0x34, 0, 0] ++ [false]) := by decide +kernel
+
+/-- a (data, mask) pair whose CRC-CCITT result is exactly 0: `check` accepts 0 for it and nothing else -/
+example : Crc.crc16 [0x7c, 0x45] 0xAAAA = .ok 0 ∧ crc16Check [0x7c, 0x45] 0 0xAAAA = .ok true
+    ∧ crc16Check [0x7c, 0x45] 1 0xAAAA = .ok false ∧ crc16Check [0x7c, 0x46] 0 0xAAAA = .ok false := by
+  decide +kernel
 
 end Dmr.C05
